@@ -1,7 +1,7 @@
 (* C05 — records stay in normal form: formal attributes single-valued, typed,
    normalised.  Statements only; proofs in theories/RecordProofs.v. *)
 From Coq Require Import String List ZArith.
-From Prov Require Import Str Sexp Tables Nsm Values Record RecordProofs.
+From Prov Require Import Str Sexp Tables Nsm Values Record RecordProofs IsoProofs TimeProofs.
 Import ListNotations.
 Open Scope string_scope.
 
@@ -94,14 +94,13 @@ Example C05_tables_cover :
   lookup "dateTime" xsd_parsers = Some "datetime".
 Proof. vm_compute. repeat split. Qed.
 
-(* xsd:dateTime: stated for all valid datetimes, checked here on samples only (the
-   general round trip iso_parse (iso_print t) = Some t is not yet proved) *)
-Definition C05_entry_path_datetime_statement : Prop :=
-  forall t, valid_dt t = true -> iso_parse (iso_print t) = Some t.
-Example C05_entry_path_datetime_partial :
-  forallb (fun t => match iso_parse (iso_print t) with
-                    | Some t' => andb (time_eqb t t') (valid_dt t)
-                    | None => false end)
+(* xsd:dateTime: a Literal carrying the isoformat() text of any valid datetime is converted to that datetime *)
+Theorem C05_entry_path_datetime : forall c m t pfx l, lookup l xsd_parsers = Some "datetime" -> valid_dt t = true ->
+  auto_conv c m (ALit (iso_print t) (Some (mkQn (mkNs pfx xsd_uri) l)) None) = Done m (Some (VTime t)).
+Proof. exact entry_path_datetime_print. Qed.
+Print Assumptions C05_entry_path_datetime.
+Example C05_entry_path_datetime_nonvacuous :
+  forallb valid_dt
     [mkDt 2012 3 31 9 21 0 0 None; mkDt 1999 12 31 23 59 59 999999 (Some 330%Z);
      mkDt 2024 2 29 0 0 0 500 (Some (-480)%Z); mkDt 1 1 1 0 0 0 0 None;
      mkDt 9999 12 31 23 59 59 1 (Some 0%Z)] = true.
